@@ -41,6 +41,9 @@ func VerifC08DotOrder() {
 			{Location: []*profile.Location{ls[2], ls[0]}, Value: []int64{w[1]}, Label: map[string][]string{"k": {"y"}}},
 			{Location: []*profile.Location{ls[3], ls[0]}, Value: []int64{w[2]}, NumLabel: map[string][]int64{"bytes": {8}, "reqs": {2}}},
 			{Location: []*profile.Location{ls[1], ls[4]}, Value: []int64{w[3]}},
+			// the same stack as the first sample under other labels, same weight: several label tags of one node tie
+			{Location: []*profile.Location{ls[1], ls[0]}, Value: []int64{w[0]}, Label: map[string][]string{"k": {"z"}}},
+			{Location: []*profile.Location{ls[1], ls[0]}, Value: []int64{w[0]}, Label: map[string][]string{"k": {"w"}}},
 		},
 	}
 	compose := func(mode string) string {
